@@ -105,7 +105,7 @@ var hangSeconds = func() time.Duration {
 			return time.Duration(n)
 		}
 	}
-	return 15
+	return 25
 }()
 
 // cpuSeconds returns the CPU time (user+system) this process has consumed.
